@@ -108,7 +108,9 @@ CLAIMS = {
         "source bytes (ASCII: ulSpec), blocks never exceed 8192 bytes, the data socket is shut down and closed before the completion reply "
         "is read, a failed write is reported. Operation level (C04o.lean): for every source content, short-read pattern, verb and all "
         "four methods the whole upload returns the three replies, the peer has exactly the source bytes, shutdown + close precede the "
-        "completion reply and no write follows them. Correspondence: real uploads (STOR/STOU/APPE) to the scripted peer, bytes and EOF seen by "
+        "completion reply and no write follows them. TLS layer (C04t.lean): on a protected data connection the trace of every "
+        "upload that returns is pre ++ [TLS close-notify, TCP shutdown, close] ++ post with every payload write in pre and the read "
+        "of the completion reply in post. Correspondence: real uploads (STOR/STOU/APPE) to the scripted peer, bytes and EOF seen by "
         "the peer, event order from libc interposition.",
    note="Back-pressure / partial sends are handled by boost::asio::write (trusted); observed via coalesced send() events.", ref="DESIGN.md section 7 C04"),
  "C12": dict(
